@@ -302,7 +302,7 @@ def smoke_C01():
 # ======================================================================================================== C02
 
 RULE_C02 = ('C02: texts = hand-picked unusual inputs (empty, blanks, lone delimiters, unclosed quote/comment/parenthesis, '
-            'NUL, lone surrogate, CR/CRLF), every soup of <= 2 of the 126 lexical fragments of domain.FRAGMENTS joined by '
+            'NUL, lone surrogate, CR/CRLF), every soup of <= 2 of the 105 lexical fragments of domain.FRAGMENTS joined by '
             "' ' and '' (quick; thorough also newline and comment separators and 150 000 random 3-fragment soups), "
             '6 000 (120 000) seeded random soups of <= 12 fragments with mixed separators, and 2 500 (40 000) seeded '
             'scripts of the verification grammar (1..3 statements, plain and procedural, keyword case varied, separators '
